@@ -1,4 +1,6 @@
 """Generic driver for the family-based TV checks."""
+import json
+import os
 from .. import framework, family_run
 from ..framework import Report
 
@@ -19,11 +21,19 @@ def run(prop, tier, families_, explanation, assumptions=(), wf_clauses=(), item_
         per[name] = len(recs)
         total += len(recs)
         allrecs += recs
+        if os.environ.get("VERIF_WRITE_BASELINE"):
+            # developer action (never part of a registered command): record which programs the pinned tree rejects
+            path = os.path.join(framework.VERIF, "baselines", "family_rejected.json")
+            base = framework.load_baseline("family_rejected.json", {})
+            base[name] = sorted(set(base.get(name, [])) | set(family_run.rejected_hashes(recs)))
+            with open(path, "w") as f:
+                json.dump(base, f, indent=0, sort_keys=True)
     if post:
         post(rep, allrecs)
     decided = sum(1 for it in rep.items if it["status"] in ("ok", "violation"))
     rep.coverage.update(programs=total, disagreements_checked=sum(1 for it in rep.items if it["status"] == "violation"),
                         explanation=explanation, families=per,
+                        rejected_with_exception=sum(1 for r in allrecs if r["verdict"] == "rejected"),
                         bounds=dict(unroll=(item_defaults or {}).get("unroll", 17 if tier == "thorough" else 9),
                                     solver_timeout_ms=(item_defaults or {}).get("timeout_ms", 60000 if tier == "thorough" else 10000),
                                     operand_values="all values of every operand width (bit-vector variables, no sampling)"),
